@@ -178,6 +178,16 @@ def gen_case(rng, tier, index):
         if rng.random() < 0.3:
             picks.append(rng.choice(picks))  # a repeated well
         op = rng.choice(["aspirate", "dispense", "transfer_src", "transfer_dst"])
+        if rng.random() < 0.15:
+            # the same rack label for two labware objects of different geometry on one worklist;
+            # the second object is addressed through well IDs the first one was addressed through too
+            other = _gen_lw(rng, small=True)
+            common = [(r, c) for (r, c) in ids if r < _nr(other) and c < other["columns"]]
+            if common and (lw["kind"], _nr(lw), lw["columns"]) != (other["kind"], _nr(other), other["columns"]):
+                picks2 = rng.sample(common, min(len(common), rng.randint(1, 6)))
+                return {"kind": "emit", "relabel": True, "device": device, "lw": lw, "other": other,
+                        "op": rng.choice(["aspirate", "dispense"]), "wells": [list(p) for p in picks2],
+                        "other_wells": [list(p) for p in picks2]}
         case = {"kind": "emit", "device": device, "lw": lw, "op": op, "wells": [list(p) for p in picks],
                 "array": rng.random() < 0.4}
         if op.startswith("transfer"):
@@ -391,7 +401,32 @@ def _wells_arg(ids, as_array):
     return np.array(ids) if as_array else list(ids)
 
 
+def _run_relabel(ctx, case):
+    """Two labware objects that share a rack label but differ in geometry, used on ONE worklist."""
+    device = case["device"]
+    wl = _worklist(device)
+    ctx.case(case, True)
+    ctx.count("same_label_two_geometries")
+    for lw, picks in ((case["lw"], case["wells"]), (case["other"], case["other_wells"])):
+        obj = _build(lw, "Samples", 100000.0)
+        n0 = len(wl)
+        ids = [wid(r, c) for r, c in picks]
+        exc = None
+        try:
+            getattr(wl, case["op"])(obj, ids, 1.0)
+        except Exception as e:
+            exc = e
+        if not ctx.check("valid_ids_are_accepted", exc is None, lambda: {"case": case, "raised": repr(exc)}):
+            return
+        got = [gwl.parse(r).f["position"] for r in list(wl)[n0:] if r[:2] in ("A;", "D;")]
+        want = [expected_position(lw, device, r, c) for r, c in picks]
+        ctx.check("record_position_field_matches_formula", got == want,
+                  lambda: {"case": case, "geometry": lw, "expected": want, "emitted": got, "records": list(wl)})
+
+
 def _run_emit(ctx, case):
+    if case.get("relabel"):
+        return _run_relabel(ctx, case)
     lw, device, op = case["lw"], case["device"], case["op"]
     picks = [tuple(p) for p in case["wells"]]
     ids = [wid(r, c) for r, c in picks]
@@ -552,15 +587,23 @@ def _run_unknown(ctx, case):
     else:
         ctx.count("volumes_unchanged_by_refused_call")
 
-    # the position helpers called directly: counted, never judged
+    # the position helpers called directly: an ID that is not a well of the labware has no position
+    # (the id -> position mapping is a bijection on the labware's own wells)
     from robotools import evotools, fluenttools
 
     for dev, fn in (("evo", evotools.get_well_position), ("fluent", fluenttools.get_well_position)):
+        pos, hexc = None, None
         try:
-            fn(obj, bad)
-            ctx.count(f"unjudged:helper_{dev}_returned_for_unknown_id")
-        except Exception:
-            ctx.count(f"unjudged:helper_{dev}_raised_for_unknown_id")
+            pos = fn(obj, bad)
+        except Exception as e:
+            hexc = e
+        ctx.count(f"helper_{dev}_called_with_unknown_id")
+        ctx.check(
+            "position_helper_refuses_unknown_id",
+            hexc is not None,
+            lambda: dict(det(), helper=dev, returned=repr(pos)),
+            key="C08.helper_accepts_unknown_id" if hexc is None else None,
+        )
 
 
 def run_case(ctx, case):
